@@ -69,8 +69,11 @@ fn main() {
         "C20" => c20::run(&tier, seed, &out),
         "C05" | "C06" | "C07" | "C08" | "C14" | "C15" | "C17" => hirprops::run(&prop, &tier, seed, &out),
         "C18" | "C04" | "C03" | "C02" | "C16" => emitprops::run(&prop, &tier, seed, &out),
+        // the extraction stage of a property whose other stages are on the emitted crate: `lnv X04 ..`
+        p if p.starts_with('X') => hirprops::run(&format!("C{}", &p[1..]), &tier, seed, &out),
         "K02" => compileprops::run_k02(&tier, seed, &out),
         "K16" => compileprops::run_k16(&tier, seed, &out),
+        "K04" => compileprops::run_k04(&tier, seed, &out),
         // the emitted-crate stage of properties whose first stage is on the HIR: `lnv E05 ..` etc.
         p if p.starts_with('E') => emitprops::run(&format!("C{}", &p[1..]), &tier, seed, &out),
         _ => {
